@@ -28,6 +28,7 @@ package main
 // an argument (lazy initialisation), a write under a lock, a value whose dependencies are not visible.
 
 import (
+	"go/ast"
 	"go/constant"
 	"fmt"
 	"go/token"
@@ -595,6 +596,10 @@ func stateRules(c *Ctx) {
 		openWithoutTruncate(c, g, short1)
 		// ---- a memo that hands out its own lists
 		memoAlias(c, g, short1)
+		// ---- an error variable shadowed by an inner declaration and returned as nil
+		shadowedError(c, g, short1)
+		// ---- letters cut to one byte while a text is copied
+		runeNarrowed(c, g, short1)
 	}
 	// parsers that link features to a local Sequence (shared by C01, C14, C15)
 	switch c.Prop {
@@ -3900,5 +3905,150 @@ func memoAlias(c *Ctx, g *ssa.Function, short1 string) {
 		if ret := direct(found, 0); ret != nil {
 			c.bad("STATE", "memo-alias:"+short1+"->"+gl.Name(), ret.Pos(), fmt.Sprintf("%s returns the list it keeps in package-level %s as it is: every caller that asks for the same key gets the same backing array, so a caller that edits its result (sorts it, filters it in place) changes what later callers receive", short1, gl.Name()))
 		}
+	})
+}
+
+// shadowedError: a return hands back an error VARIABLE that is provably nil there (the SSA value is the
+// constant nil, the source says `return …, err`), while a variable of the same name is declared again with :=
+// in a nested block of the same function: the inner declaration receives the errors, the outer one that is
+// returned never does, so the failure is detected and then dropped.
+func shadowedError(c *Ctx, g *ssa.Function, short1 string) {
+	fd, ok := g.Syntax().(*ast.FuncDecl)
+	if !ok || fd.Body == nil {
+		return
+	}
+	// names declared with := (or var) somewhere below the function's top-level block
+	inner := map[string]token.Pos{}
+	var walk func(n ast.Node, depth int)
+	walk = func(n ast.Node, depth int) {
+		ast.Inspect(n, func(x ast.Node) bool {
+			switch y := x.(type) {
+			case *ast.FuncLit:
+				return false
+			case *ast.BlockStmt:
+				if y != fd.Body {
+					for _, st := range y.List {
+						if as, isAs := st.(*ast.AssignStmt); isAs && as.Tok == token.DEFINE {
+							for _, l := range as.Lhs {
+								if id, isId := l.(*ast.Ident); isId && id.Name != "_" {
+									inner[id.Name] = id.Pos()
+								}
+							}
+						}
+					}
+				}
+			case *ast.IfStmt:
+				if as, isAs := y.Init.(*ast.AssignStmt); isAs && as.Tok == token.DEFINE {
+					for _, l := range as.Lhs {
+						if id, isId := l.(*ast.Ident); isId && id.Name != "_" {
+							inner[id.Name] = id.Pos()
+						}
+					}
+				}
+			}
+			return true
+		})
+	}
+	walk(fd.Body, 0)
+	if len(inner) == 0 {
+		return
+	}
+	retAt := map[token.Pos]*ast.ReturnStmt{}
+	ast.Inspect(fd.Body, func(x ast.Node) bool {
+		if _, isLit := x.(*ast.FuncLit); isLit {
+			return false
+		}
+		if r, isRet := x.(*ast.ReturnStmt); isRet {
+			retAt[r.Return] = r
+		}
+		return true
+	})
+	for _, r := range returnsOf(g) {
+		rs := retAt[r.Pos()]
+		if rs == nil || len(rs.Results) != len(r.Results) {
+			continue
+		}
+		for k, res := range r.Results {
+			if tname(res.Type()) != "error" {
+				continue
+			}
+			kst, isC := res.(*ssa.Const)
+			if !isC || !kst.IsNil() {
+				continue
+			}
+			id, isId := rs.Results[k].(*ast.Ident)
+			if !isId || id.Name == "nil" {
+				continue
+			}
+			if at, shadowed := inner[id.Name]; shadowed {
+				c.bad("STATE", "shadowed-error:"+short1, r.Pos(), fmt.Sprintf("%s returns the variable %s, which is always nil at this return, while a second %s is declared with := in a nested block (%s): the inner one receives the errors, the one that is returned never does, so a failure is detected and then reported as success", short1, id.Name, id.Name, c.W.pos(at)))
+				return
+			}
+		}
+	}
+}
+
+// runeNarrowed: the letters of a text are ranged over as runes and each is cut to one byte before it is
+// written on (byte(letter) into WriteByte / append / an element store), with no test of the rune's size on
+// the way: a non-ASCII letter becomes some other, valid-looking letter (U+0141 'Ł' -> 'A') or shifts what follows.
+func runeNarrowed(c *Ctx, g *ssa.Function, short1 string) {
+	tb := newTB(g)
+	eachInstr(g, func(i ssa.Instruction) {
+		cv, ok := i.(*ssa.Convert)
+		if !ok || cv.Referrers() == nil {
+			return
+		}
+		bt, isB := cv.Type().Underlying().(*types.Basic)
+		if !isB || (bt.Kind() != types.Uint8 && bt.Kind() != types.Int8) {
+			return
+		}
+		ex, isEx := cv.X.(*ssa.Extract)
+		if !isEx || ex.Index != 2 { // next over a string yields (ok, index, rune)
+			return
+		}
+		nx, isNext := ex.Tuple.(*ssa.Next)
+		if !isNext || !nx.IsString {
+			return
+		}
+		// the ranged text comes from an argument
+		rg, _ := nx.Iter.(*ssa.Range)
+		if rg == nil {
+			return
+		}
+		if d, _ := dependsOnArgs(tb.T(rg.X)); !d {
+			return
+		}
+		written := false
+		for _, r := range *cv.Referrers() {
+			switch x := r.(type) {
+			case ssa.CallInstruction:
+				n := calleeName(x)
+				if strings.HasSuffix(n, ").WriteByte") || n == "builtin:append" {
+					written = true
+				}
+			case *ssa.Store:
+				if x.Val == ssa.Value(cv) {
+					written = true
+				}
+			}
+		}
+		if !written {
+			return
+		}
+		// a size test of the rune on the way here (r < 128, r > unicode.MaxASCII, r < utf8.RuneSelf) makes it safe
+		runeT := tb.T(ex).String()
+		for _, a := range pathCond(tb, g.Blocks[0], cv.Block()).atoms() {
+			if a.Atom.Op == "binop" && strings.Contains(a.Atom.String(), runeT) {
+				switch a.Atom.Name {
+				case "<", "<=", ">", ">=":
+					for _, side := range a.Atom.Args {
+						if k, isC := side.constInt(); isC && k >= 0x7f && k <= 0x100 {
+							return
+						}
+					}
+				}
+			}
+		}
+		c.bad("STATE", "rune-narrowed:"+short1, cv.Pos(), fmt.Sprintf("%s ranges over a text letter by letter and writes each letter on as byte(letter) without testing its size: a non-ASCII letter is cut to its low byte and becomes a different, valid-looking letter (U+0141 'Ł' is written as 'A'), and a multi-byte letter no longer takes the room it had", short1))
 	})
 }
